@@ -235,3 +235,57 @@ Proof.
   exists k. rewrite P6. rewrite Q1 in P5. injection P5 as P5. unfold req_tail in P5.
   destruct (split_unique _ _ _ _ (replace_dotfree _) Dx P5) as [<- <-]. reflexivity.
 Qed.
+
+(* ---- C10: the provider is mute until it has confirmed a name, and confirmed means verified ---- *)
+Lemma with_slot_silent : forall es c, silent es -> silent (snd (with_hostname_slot c es)).
+Proof.
+  induction es as [|e es IH]; intros c S; cbn [with_hostname_slot]; [apply silent_nil|].
+  assert (S' : silent es) by (intros m H; apply S; right; exact H).
+  assert (Generic : forall c0, silent (snd (let '(c2, e2) := with_hostname_slot c0 es in (c2, e :: e2)))).
+  { intro c0. specialize (IH c0 S'). destruct (with_hostname_slot c0 es) as [c2 e2]. cbn [snd] in *.
+    intros m [H|H]; [apply S; left; exact H|apply IH, H]. }
+  destruct e as [m|m|ob sg p|tid ms|tid|rs]; try apply Generic.
+  destruct p as [|b|sv|a|r]; try apply Generic. destruct b as [n|]; [|apply Generic].
+  destruct (sg =? SIG_hostnameChanged)%N; [|apply Generic].
+  assert (H1 : silent (snd (prov_on_hostname_changed c n))).
+  { unfold prov_on_hostname_changed. destruct (negb (pv_exists (cp_prov c))); [apply silent_nil|].
+    match goal with |- context [if pv_initialized ?p1 then _ else _] => destruct (pv_initialized p1) end; [|apply silent_nil].
+    match goal with |- context [confirm ?p1 ?pb] => pose proof (confirm_silent p1 pb) as CS; destruct (confirm p1 pb) as [pb' es'] end. exact CS. }
+  destruct (prov_on_hostname_changed c n) as [c1 e1]. specialize (IH c1 S'). destruct (with_hostname_slot c1 es) as [c2 e2]. cbn [snd] in *.
+  intros m [H|H]; [discriminate|]. apply in_app_iff in H as [H|H]; [apply H1, H|apply IH, H].
+Qed.
+
+(* a handler invocation that neither starts nor ends with a confirmed provider multicasts no response at all *)
+Theorem unconfirmed_is_mute now c ev :
+  pv_confirmed (cp_prov c) = false -> pv_confirmed (cp_prov (fst (comp_handle now c ev))) = false ->
+  silent (snd (comp_handle now c ev)).
+Proof.
+  intros C0 C1. destruct ev as [m|tid|a]; cbn [comp_handle] in *.
+  - pose proof (host_handle_silent now (cp_host c) (EvMsg m)) as S1. destruct (host_handle now (cp_host c) (EvMsg m)) as [h1 e1].
+    assert (S3 : silent (snd (match cp_prober c with
+                              | Some pb => let '(pb', e) := prober_handle now pb (EvMsg m) in (Some pb', e)
+                              | None => (None, []) end))).
+    { destruct (cp_prober c) as [pb|]; [|apply silent_nil]. cbn [prober_handle].
+      destruct (pb_confirmed pb || negb (m_response m)); [apply silent_nil|].
+      pose proof (on_records_silent (m_records m) pb) as S. destruct (on_records (m_records m) pb) as [pb' e]. exact S. }
+    destruct (match cp_prober c with Some pb => _ | None => (None, []) end) as [pb e3]. cbn [fst snd] in *.
+    apply silent_app; [exact S1|]. apply silent_app; [|exact S3].
+    destruct (pv_exists (cp_prov c)); [apply prov_on_message_silent|apply silent_nil].
+  - destruct (tid =? T_PROBER)%N.
+    + destruct (cp_prober c) as [pb|]; [|apply silent_nil]. exfalso.
+      pose proof (on_name_confirmed_fields (r_name (pb_proposed pb)) (cp_prov c)) as F. cbv zeta in F.
+      destruct (on_name_confirmed (r_name (pb_proposed pb)) (cp_prov c)) as [p' es]. cbn [fst cp_prov] in *.
+      destruct F as (_ & _ & F3 & _). congruence.
+    + pose proof (host_handle_silent now (cp_host c) (EvTimer tid)) as S1.
+      destruct (host_handle now (cp_host c) (EvTimer tid)) as [h1 e1]. cbn [fst snd] in *. apply with_slot_silent, S1.
+  - destruct a as [| |s|]; try apply silent_nil.
+    + destruct (pv_exists (cp_prov c)); [|apply silent_nil]. unfold prov_update in *.
+      set (p := set_prov (cp_prov c) true (pv_confirmed (cp_prov c))) in *.
+      match goal with |- context [if negb (match bs_data (r_target (pv_srvP ?q)) with [] => true | _ :: _ => false end) then _ else _] => set (p1 := q) in * end.
+      destruct (negb (match bs_data (r_target (pv_srvP p1)) with [] => true | _ :: _ => false end)); [|apply silent_nil].
+      assert (E : pv_confirmed p1 = false) by (unfold p1, p; cbn; exact C0).
+      rewrite E. cbn [negb orb].
+      pose proof (confirm_silent p1 (cp_prober c)) as CS. destruct (confirm p1 (cp_prober c)) as [pb es]. exact CS.
+    + destruct (pv_exists (cp_prov c)); [|apply silent_nil]. rewrite C0. cbn [fst snd app].
+      destruct (cp_prober c); [intros m [H|[]]; discriminate|apply silent_nil].
+Qed.
